@@ -148,7 +148,8 @@ def project_layout(A, lay, onodes, snodes):
                 finite = False
                 continue
             branches.append({"gene": gid(gene), "kind": KIND[br.kind.name], "left": gid(br.left), "right": gid(br.right),
-                             "rect": rect4(br.rect), "color": br.color, "name": br.name,
+                             "rect": rect4(br.rect), "color": br.color if isinstance(br.color, str) else "<none>",
+                             "name": br.name if isinstance(br.name, str) else "<none>",
                              "ap": [scaled(br.anchor_parent.x), scaled(br.anchor_parent.y)],
                              "al": [scaled(br.anchor_left.x), scaled(br.anchor_left.y)],
                              "ar": [scaled(br.anchor_right.x), scaled(br.anchor_right.y)],
